@@ -243,7 +243,7 @@ class Tensor:
             t._root = Payload(root)
             return t
 
-        return Tensor.fromFiber(rank_ids, root, shape=shape)
+        return Tensor.fromFiber(rank_ids, root, shape=shape, name=name)
 
 
     @classmethod
